@@ -549,3 +549,32 @@ pub fn replay(ctx: &Ctx, _sub: &str, case: &Value) {
         ctx.check_case("replay", Err(f), || case.clone());
     }
 }
+
+/// Run handle_layer scripts (restores ignored) against a given context without a model — used by the scripted buildpack (C20).
+pub fn apply_ops(bc: &BuildContext<HB>, ops: &[Op], side: &Path) -> Result<(), String> {
+    for op in ops {
+        if let Op::Handle { name, m, script } = op {
+            let ln: LayerName = NAMES[(*name % NAMES.len() as u8) as usize].parse().unwrap();
+            let log = Rc::new(RefCell::new(vec![]));
+            let r = match m {
+                MType::Generic => run_handle::<GenericMetadata>(bc, &ln, script, side, log),
+                MType::V1 => run_handle::<V1>(bc, &ln, script, side, log),
+                MType::V2 => run_handle::<V2>(bc, &ln, script, side, log),
+            };
+            if let Err(e) = r {
+                if !e.starts_with("buildpack-error") {
+                    return Err(e);
+                }
+            }
+        }
+    }
+    Ok(())
+}
+
+pub fn history_strategy_for_bp() -> impl Strategy<Value = Vec<Op>> {
+    history_strategy(2)
+}
+
+pub fn history_from_json(v: &Value) -> Vec<Op> {
+    v.as_array().unwrap().iter().map(op_from_json).collect()
+}
